@@ -65,7 +65,10 @@ def mat_json(m):
 def mat_close(got, want, tol=None):
     tol = core.DEFAULT_TOL if tol is None else tol
     got = np.asarray(got, dtype=float)
-    w = np.array([[float(x) for x in r] for r in want], dtype=float).reshape(got.shape) if got.size else np.zeros(got.shape)
+    w = np.array([[float(x) for x in r] for r in want], dtype=float) if got.size else np.zeros(got.shape)
+    if w.size != got.size:
+        return False
+    w = w.reshape(got.shape)
     if got.shape != w.shape:
         return False
     if got.size == 0:
@@ -74,6 +77,14 @@ def mat_close(got, want, tol=None):
         return False
     scale = 1.0 + float(np.max(np.abs(w)))
     return bool(np.max(np.abs(got - w)) <= tol * scale)
+
+
+def recorded(table, key):
+    """what a filter recorded under `key` (innovation, innovation covariance) as a float array; a 1x1 NaN when it holds nothing for
+    that key, so that every comparison with the expected value fails as a finding instead of raising inside the harness"""
+    if key not in table:
+        return np.full((1, 1), np.nan)
+    return np.asarray(table[key], dtype=float)
 
 
 # ------------------------------------------------------------------ building filters
